@@ -1,6 +1,6 @@
 """C04 - core evaluation semantics (the scoping clauses)."""
 from props._common import pyvc_units, frame_unit
-from contracts import contexts, system, evalglue
+from contracts import contexts, system, evalglue, specs
 
 LEVEL = 'proof'
 TECHNIQUE = ('pyvc contracts with ghost call/write logs on the real scoping '
@@ -33,4 +33,9 @@ def units(ctx):
     us += pyvc_units(contexts.contracts(), 'C04', contexts.setup)
     us += pyvc_units(system.contracts(), 'C04', system.setup)
     us += pyvc_units(evalglue.contracts(), 'C04', evalglue.setup)
+    # the delegate as built by the real get_delegate (closure and all),
+    # invoked: one fresh child per activation, handed to every converter
+    from vlib.pyvc.unit import contract_unit
+    us += [contract_unit(c, world_setup=specs.setup)
+           for c in specs.invoked_delegate_contracts()]
     return us
